@@ -121,6 +121,62 @@ def run(chk):
             chk.ok('C05-R3', where, sample='%s: build..()? then emit' % where)
     chk.floor('functions calling emit', emits, 3)
     r4(chk, fx)
+    # ---- R7: surplus positional arguments
+    chk.rule('C05-R7', 'Context::substitute_subr_call rejects a call with more positional arguments than parameters unless the callee has `*args`: the condition that leads to '
+                       'gen_too_many_args_error is true for (surplus positionals, no var_params) whatever kw_var_params is (truth table over the two variadic flags)')
+    ssc = fx.fn(INQ, 'Context::substitute_subr_call')
+    tm = [n for n in T.walk(ssc['body']) if n.get('k') == 'If' and any(c.get('k') == 'MCall' and c['n'] == 'gen_too_many_args_error' for c in T.calls(n['t']))]
+    if chk.need(len(tm) == 1, 'substitute_subr_call: the `if .. { return Err(gen_too_many_args_error(..)) }` test was not found (%d)' % len(tm)):
+        cond = tm[0]['c']
+
+        def ev7(e, V, K):
+            """value of the condition for a call with surplus positional arguments, no keyword arguments, no *args / **kwargs at the call site"""
+            e = T.peel(e)
+            k = e.get('k')
+            if k == 'Binary' and e['op'] in ('&&', '||'):
+                a, b = ev7(e['x'], V, K), ev7(e['y'], V, K)
+                if a is None or b is None:
+                    if e['op'] == '&&' and (a is False or b is False):
+                        return False
+                    if e['op'] == '||' and (a is True or b is True):
+                        return True
+                    return None
+                return (a and b) if e['op'] == '&&' else (a or b)
+            if k == 'Unary' and e.get('op') == '!':
+                a = ev7(e['x'], V, K)
+                return None if a is None else not a
+            sshow = T.show(e).replace(' ', '')
+            if k == 'MCall' and e['n'] == 'is_no_var':
+                return (not V) and (not K)
+            if k == 'MCall' and e['n'] in ('is_none', 'is_some') and sshow.split('.')[-2] in ('var_params', 'kw_var_params') and 'subr' in sshow:
+                has = V if 'kw_var_params' not in sshow else K
+                return (not has) if e['n'] == 'is_none' else has
+            if k == 'Local' and e['n'] == 'there_var':
+                return False
+            if k == 'Binary' and e['op'] in ('<', '==', '>', '<=', '>='):
+                l, r = T.show(T.peel(e['x'])).replace(' ', ''), T.show(T.peel(e['y'])).replace(' ', '')
+                # params_len < pos_args.len() [+ kw_args.len()] : surplus positionals, kw_args empty
+                if 'params_len' in l and 'pos_args.len()' in r:
+                    return {'<': True, '<=': True, '==': False, '>': False, '>=': False}[e['op']]
+                if 'params_len' in r and 'pos_args.len()' in l:
+                    return {'>': True, '>=': True, '==': False, '<': False, '<=': False}[e['op']]
+            return None
+        okall = True
+        for K in (False, True):
+            v = ev7(cond, False, K)
+            inst = 'surplus-positional:kw_var=%s' % ('yes' if K else 'no')
+            if v is True:
+                chk.ok('C05-R7', inst)
+            elif v is False:
+                okall = False
+                chk.bad('C05-R7', 'Context::substitute_subr_call', inst, 'a call with more positional arguments than parameters is not rejected when the callee has %s: '
+                        '`f(x: Int, **kw: Int) = x; f(1, 2)` type-checks and fails at run time' % ('`**kwargs` but no `*args`' if K else 'no variadic parameter'), INQ, tm[0]['l'])
+            else:
+                chk.need(False, 'substitute_subr_call: the too-many-arguments condition could not be evaluated (%s)' % T.show(cond)[:80])
+        for K in (False, True):
+            v = ev7(cond, True, K)
+            if v is True:
+                chk.bad('C05-R7', 'Context::substitute_subr_call', 'var-args-rejected:kw_var=%s' % K, 'surplus positional arguments are rejected although the callee has `*args`', INQ, tm[0]['l'])
     # ---- R6: no pattern throws the error list of a lowering step away
     chk.rule('C05-R6', 'no pattern in the lowerer (lower.rs, declare.rs) matches the Err of a fallible lowering step with a wildcard in the place of the error list — '
                        '`Err(_)`, `Err((Some(x), _))` — : the partially lowered node it keeps has type Failure, which is compatible with everything, so the dropped errors are '
